@@ -43,7 +43,7 @@ def _classify(prop, tool, text, rep, what):
         rep["notes"].append("%s report entirely in third-party code (inconclusive): %s" % (tool, text[-300:].replace("\n", " | ")))
 
 
-def miri_shards(prop, sub, seed, shards, cases, flags, timeout=3000):
+def miri_shards(prop, sub, seed, shards, cases, flags, timeout=1500):
     """run `rgmon <sub> --cases N` under Miri in `shards` processes"""
     rep = common.empty_report()
     env = dict(common.CARGO_ENV, CARGO_TARGET_DIR=MIRI_TARGET, MIRIFLAGS=flags,
